@@ -179,30 +179,42 @@ def _norm(x):
 
 
 def _model(vcf, cfg, chrom, pos0, base):
-    """answer for clear-cut sites, else 'unknown'"""
+    """answer the statement prescribes, for every site class it pins down; 'unknown' where it does not
+    (a selected sample without a genotype: the code keeps such "monomorphic" sites by design)"""
     names = {c: i for i, (c, _) in enumerate(vcf['contigs'])}
     if chrom not in names:
         return None
     recs = [r for r in vcf['records'] if r[0] == names[chrom] and r[1] - 1 == pos0]
     if not recs:
-        # a multi-base record elsewhere never occupies another position in the table
-        return None
-    if not cfg['phased']:
-        return 'unknown'
+        return None         # position absent from the VCF (a multi-base record elsewhere never occupies another position)
     ci, pos, ref, alts, gts = recs[0]
-    if len(ref) != 1 or len(alts) != 1 or len(alts[0]) != 1:
-        return 'unknown'
-    sel = cfg['select'] or vcf['samples']
-    carried = {}
-    for s, gt in zip(vcf['samples'], gts):
-        if s not in sel:
-            continue
-        if '.' in gt:
-            return 'unknown'
-        for a in gt.replace('|', '/').split('/'):
-            carried.setdefault([ref, alts[0]][int(a)], set()).add(s)
-    if len(carried) < 2:
-        return None     # uninformative
+    alleles = [ref] + list(alts)
+    if not cfg['phased']:
+        # unphased mode labels the alleles of a single-nucleotide site U, V, W ...; anything else is not a single-nucleotide site
+        if not all(len(a) == 1 for a in alleles):
+            return None
+        carried = {}
+        for letter, a in zip('UVWXYZ', alleles):
+            carried.setdefault(a, set()).add(letter)
+    else:
+        sel = cfg['select'] or vcf['samples']
+        carried = {}
+        multibase_carried = False
+        for s_, gt in zip(vcf['samples'], gts):
+            if s_ not in sel:
+                continue
+            if '.' in gt:
+                return 'unknown'
+            for a in gt.replace('|', '/').split('/'):
+                al = alleles[int(a)]
+                if len(al) == 1:
+                    carried.setdefault(al, set()).add(s_)
+                else:
+                    multibase_carried = True
+        if multibase_carried:
+            return None     # a selected sample carries a multi-base allele here: not a single-nucleotide site
+        if len(carried) < 2:
+            return None     # uninformative: every selected sample shows the same base
     if cfg['ignore'] and any([ref, b] in cfg['ignore'] for b in carried):
         return None
     return sorted(carried.get(base)) if base in carried else None
